@@ -104,7 +104,7 @@ func coreNumericImages() []int64 {
 		vs = append(vs, j-1, j, j+1)
 	}
 	vs = append(vs, refFloatToImg(0.5), refFloatToImg(-1e9))
-	vs = append(vs, 1<<4, 1<<4-1, 1<<52, 1<<52-1, -(1 << 52), -(1 << 52) - 1)
+	vs = append(vs, 1<<4, 1<<4-1, 1<<52, 1<<52-1, -(1 << 52), -(1<<52)-1)
 	return dedup(vs)
 }
 
